@@ -3,6 +3,7 @@ package catalog
 import (
 	"encoding/json"
 	"strconv"
+	"sync"
 
 	jschemaLib "github.com/jsightapi/jsight-schema-go-library"
 	"github.com/jsightapi/jsight-schema-go-library/notations/jschema"
@@ -65,15 +66,31 @@ func unmarshalJSightSchema(s jschemaLib.Schema) (Schema, error) {
 		return Schema{}, err
 	}
 
-	example, err := s.Example()
+	example, err := buildExample(s)
 	if err != nil {
 		return Schema{}, err
 	}
 
 	ret := NewSchema(notation.SchemaNotationJSight)
 	ret.ContentJSight = astNodeToJsightContent(n, ret.UsedUserTypes, ret.UsedUserEnums)
-	ret.Example = string(example)
+	ret.Example = example
 	return ret, nil
+}
+
+// exampleMx serializes the building of examples: the schema library builds an
+// example in a buffer from a pool and returns a slice of that buffer, so the
+// result has to be copied before another goroutine builds its own example.
+var exampleMx sync.Mutex
+
+func buildExample(s jschemaLib.Schema) (string, error) {
+	exampleMx.Lock()
+	defer exampleMx.Unlock()
+
+	example, err := s.Example()
+	if err != nil {
+		return "", err
+	}
+	return string(example), nil
 }
 
 func astNodeToJsightContent(
